@@ -47,6 +47,7 @@ type prog struct {
 	Role      string `json:"role"` // refclient | refserver
 	MTU       int    `json:"mtu"`
 	NonceHigh bool   `json:"noncehigh"`
+	PiggyResp bool   `json:"piggyresp"` // reference server: the first bytes of its answer ride on the openSessionResponse (docs/protocol.md allows up to 1024)
 	Seed      int64  `json:"seed"`
 	Steps     []step `json:"steps"`
 }
@@ -471,9 +472,16 @@ func runRefServer(t *testing.T, p *prog, emit func(event)) {
 						emit(event{Ev: "Recv", ID: p.ID, Pt: int(m.Type), N: len(seg.Payload), Ok: true})
 						switch {
 						case m.Type == 2:
-							send(refcodec.Meta{Type: 3, Timestamp: uint32(time.Now().Unix() / 60), SID: m.SID, Seq: sseq}, nil, nil, padding(nextParams().Pad2, r), 0)
+							pig := 0
+							if p.PiggyResp {
+								pig = len(seg.Payload)
+								if pig > 1024 {
+									pig = 1024
+								}
+							}
+							send(refcodec.Meta{Type: 3, Timestamp: uint32(time.Now().Unix() / 60), SID: m.SID, Seq: sseq}, seg.Payload[:pig], nil, padding(nextParams().Pad2, r), 0)
 							sseq++
-							echo(send, m.SID, &sseq, 0, seg.Payload)
+							echo(send, m.SID, &sseq, 0, seg.Payload[pig:])
 						case refcodec.IsData(m.Type):
 							echo(send, m.SID, &sseq, 0, seg.Payload)
 						case m.Type == 4:
